@@ -30,13 +30,16 @@ pub enum KindId {
     OVec24,
     OArray24,
     Iter24,
+    OVecBox,
+    OArrayBox,
+    IterBox,
     /// range with bounds taken from the C16 grid: the `len` of a unit encodes (start index, end index)
     RangeX,
 }
 
 pub const GRID: [usize; 9] = [0, 1, 7, usize::MAX / 2 - 1, usize::MAX / 2, usize::MAX / 2 + 1, usize::MAX - 2, usize::MAX - 1, usize::MAX];
 
-pub const ALL_KINDS: [KindId; 24] = [
+pub const ALL_KINDS: [KindId; 27] = [
     KindId::Slice,
     KindId::VecRef,
     KindId::ArrayRef,
@@ -60,6 +63,9 @@ pub const ALL_KINDS: [KindId; 24] = [
     KindId::OVec24,
     KindId::OArray24,
     KindId::Iter24,
+    KindId::OVecBox,
+    KindId::OArrayBox,
+    KindId::IterBox,
     KindId::RangeX,
 ];
 
@@ -90,17 +96,20 @@ impl KindId {
             OVec24 => "vec24",
             OArray24 => "array24",
             Iter24 => "iter24",
+            OVecBox => "vec_box",
+            OArrayBox => "array_box",
+            IterBox => "iter_box",
             RangeX => "range_grid",
         };
         KindInfo {
             name,
             known: !matches!(self, IterInexact | IterUnk | IterNonFused | CopiedIter | IterRefUnk),
-            consuming: matches!(self, OVec | OArray | IterExact | IterInexact | IterUnk | IterNonFused | OVec24 | OArray24 | Iter24),
+            consuming: matches!(self, OVec | OArray | IterExact | IterInexact | IterUnk | IterNonFused | OVec24 | OArray24 | Iter24 | OVecBox | OArrayBox | IterBox),
             by_ref: matches!(self, Slice | VecRef | ArrayRef | IterRef | IterRefUnk),
             clones: matches!(self, ClonedSlice | ClonedVecRef | ClonedArrayRef | ClonedIter),
             adaptor: matches!(self, ClonedSlice | CopiedSlice | ClonedVecRef | ClonedArrayRef | ClonedIter | CopiedIter),
             nonfused: matches!(self, IterNonFused),
-            wrapper: matches!(self, IterExact | IterInexact | IterUnk | IterNonFused | IterRef | IterRefUnk | ClonedIter | CopiedIter | Iter24),
+            wrapper: matches!(self, IterExact | IterInexact | IterUnk | IterNonFused | IterRef | IterRefUnk | ClonedIter | CopiedIter | Iter24 | IterBox),
             keymap: match self {
                 Range0 => KeyMap::Range(0),
                 Range5 | RangeInto => KeyMap::Range(5),
@@ -134,20 +143,25 @@ pub enum Hint {
 }
 
 /// owning probe iterator
-pub struct Probe<const PAD: usize> {
-    items: std::vec::IntoIter<Elem<PAD>>,
+pub struct Probe<T> {
+    items: std::vec::IntoIter<T>,
     hint: Hint,
-    ghost: Option<Elem<PAD>>,
+    ghost: Option<T>,
     ended: bool,
 }
-impl<const PAD: usize> Probe<PAD> {
+impl<const PAD: usize> Probe<Elem<PAD>> {
     pub fn new(items: std::vec::Vec<Elem<PAD>>, hint: Hint, nonfused: bool) -> Self {
         Probe { items: items.into_iter(), hint, ghost: if nonfused { Some(Elem::ghost()) } else { None }, ended: false }
     }
 }
-impl<const PAD: usize> Iterator for Probe<PAD> {
-    type Item = Elem<PAD>;
-    fn next(&mut self) -> Option<Elem<PAD>> {
+impl Probe<BElem> {
+    pub fn new_box(items: std::vec::Vec<BElem>) -> Self {
+        Probe { items: items.into_iter(), hint: Hint::Exact, ghost: None, ended: false }
+    }
+}
+impl<T> Iterator for Probe<T> {
+    type Item = T;
+    fn next(&mut self) -> Option<T> {
         if self.ended {
             return self.ghost.take();
         }
@@ -205,6 +219,41 @@ fn mk<const PAD: usize>(len: usize) -> std::vec::Vec<Elem<PAD>> {
         }
         v
     })
+}
+
+fn mkb(len: usize) -> std::vec::Vec<BElem> {
+    subj(|| {
+        let mut v = Vec::with_capacity(len);
+        for i in 0..len {
+            v.push(BElem::new(i));
+        }
+        v
+    })
+}
+
+macro_rules! with_array_box {
+    ($len:expr, $a:ident => $body:block) => {{
+        macro_rules! go {
+            ($n:literal) => {{
+                let v: std::vec::Vec<BElem> = mkb($n);
+                let $a: [BElem; $n] = match v.try_into() {
+                    Ok(a) => a,
+                    Err(_) => unreachable!(),
+                };
+                $body
+            }};
+        }
+        match $len {
+            0 => go!(0),
+            1 => go!(1),
+            2 => go!(2),
+            3 => go!(3),
+            4 => go!(4),
+            5 => go!(5),
+            6 => go!(6),
+            _ => panic!("array kinds support len 0..=6"),
+        }
+    }};
 }
 
 macro_rules! with_array {
@@ -443,6 +492,24 @@ pub fn exec_one(kind: KindId, mode: Mode, env: &mut Env, hist: &[SOp], term: Ter
             end_checks(env, false);
         }
         RangeX => unreachable!(),
+        OVecBox => {
+            let src = mkb(len);
+            let it = subj(|| src.into_con_iter());
+            run_history(env, it, hist, term);
+            end_checks(env, false);
+        }
+        OArrayBox => with_array_box!(len, a => {
+            let it = subj(|| IntoConcurrentIter::into_con_iter(a));
+            run_history(env, it, hist, term);
+            end_checks(env, false);
+        }),
+        IterBox => {
+            let src = mkb(len);
+            let p = Probe::new_box(src);
+            let it = subj(|| IterIntoConcurrentIter::into_con_iter(p));
+            run_history(env, it, hist, term);
+            end_checks(env, false);
+        }
         Iter24 => {
             let src: std::vec::Vec<Elem<2>> = mk(len);
             let p = Probe::new(src, Hint::Exact, false);
